@@ -138,10 +138,16 @@ def run(ctx):
         if _sig.startswith(("server:", "serverconn:", "X_server")) or (isinstance(_rp, dict) and "beh" in _rp and _rp.get("kind") in ("tcp", "udp")):
             import server_extra
             return server_extra.run_extra(ctx)
+        if _sig.startswith("reuse:"):
+            import poollib
+            return poollib.replay(ctx)
         return replay(ctx)
     # extra coverage: connection lifecycle of pkg/server (spec/ServerConn.tla, harness/drv_server), run concurrently
     import server_extra
     _bg_server = vlib.background(ctx, server_extra.run_extra, "server_extra")
+    # extra coverage: frames written by the reuse transport on retries (spec/ReuseConn_Trace.tla, harness/drv_pool)
+    import pool_extra
+    _bg_reuse = vlib.background(ctx, pool_extra.run_c16_reuse, "reuse_retry_frames")
     T = ctx.thorough()
     rng = random.Random(ctx.seed)
     ctx.assumptions += [
@@ -238,6 +244,12 @@ def run(ctx):
     ctx.cov["exhaustive"] = bool(T)
     for r in [r for r in recs if r["kind"] == "replay"][:2] + [r for r in recs if r["kind"] == "server"][:1]:
         ctx.sample({"kind": r["kind"], "map": r.get("map"), "events": (r.get("events") or [])[:12]})
+    try:
+        _bg_reuse.join()
+    except vlib.Infra as e:
+        if not (ctx.violations or ctx.known_hits):
+            raise
+        log("note: reuse_retry_frames ended with an infrastructure error, violations are already recorded: %s" % str(e)[:300])
     try:
         _bg_server.join()
     except vlib.Infra as e:
